@@ -7,7 +7,7 @@
      O <op#> ok|skip|bad <code>          verdict of Tree.tree_step for the implementation's outcome
      W <op#> <issue> ...                 violated structural clauses after this op
      M <op#>                             decoded image differs from the abstract tree
-     I <op#> free=<n> copies=<0|1> status=<byte> fsfree=<n> fsnext=<n> bits=<n> clusters=<n> res0=<raw,..> res1=<raw,..>
+     I <op#> rootroom=<slots|-1> free=<n> copies=<0|1> status=<byte> fsfree=<n> fsnext=<n> bits=<n> clusters=<n> res0=<raw,..> res1=<raw,..>
                                         (res0/res1: raw FAT entries 0 and 1 of every copy)
      X <op#> <text>                      judge could not interpret the transcript line
 *)
@@ -359,7 +359,23 @@ let run_script (si : int) (ops : opblock list) (do_wf : bool) (do_tree : bool) (
             else if bits = 16 then Image.img_u16 !im (BinNat.N.add base (n_of_int (2 * c)))
             else Image.img_u32 !im (BinNat.N.add base (n_of_int (4 * c))) in
           let raws c = String.concat "," (Stdlib.List.init (max 1 (int_of_n g.Abs.g_fats)) (fun k -> string_of_n (raw_entry k c))) in
-          Printf.printf "I %d free=%s copies=%d status=%s fsfree=%s fsnext=%s bits=%s clusters=%s res0=%s res1=%s\n" oi
+          (* fixed root (FAT12/16): the largest number of consecutive slots a new entry could take - a run of deleted
+             slots, or the deleted slots directly before the end marker plus everything from the marker to the end *)
+          let rootroom =
+            if is32 then -1 else begin
+              let (_, ss) = Abs.root_slots g !im in
+              let best = ref 0 and run = ref 0 and ended = ref false in
+              Stdlib.List.iter (fun sl ->
+                if not !ended then begin
+                  let b0 = (match sl with x :: _ -> int_of_n x | [] -> 0) in
+                  if b0 = 0 then ended := true
+                  else if b0 = 229 then (incr run; if !run > !best then best := !run)
+                  else run := 0
+                end;
+                if !ended then (incr run; if !run > !best then best := !run)) ss;
+              !best
+            end in
+          Printf.printf "I %d rootroom=%d free=%s copies=%d status=%s fsfree=%s fsnext=%s bits=%s clusters=%s res0=%s res1=%s\n" oi rootroom
             (string_of_n (Abs.count_free g !im)) (if Abs.fat_copies_equal g !im then 1 else 0)
             (string_of_n (Image.img_get !im (Abs.g_status_off g)))
             (if is32 then string_of_n (Image.img_u32 !im (BinNat.N.add fsi (n_of_int 488))) else "0")
